@@ -202,7 +202,7 @@ def c08_rule(e):
 
 
 @symx("C08-bars", timeout=900, kind="C+S", functions=F8,
-      bounds="Bar(size, begin, end) and ProgressBar(total, completed, width cap, pulse) with total in {0,1,7,12}, completed in {0,1,3,7,12}, cap in {none,5,20}, available width "
+      bounds="Bar(size, begin, end) and ProgressBar(total, completed, width cap, pulse) with total in {0,1,7,12}, completed in {0,1,3,7,12}, cap in {none,5,20}, pulse animation time in {0, .3, .75, .95}, available width "
              "1..40, colour on/off: never wider than the width; exactly the width (or the cap) when colour is available")
 def c08_bars(e):
     w = int(e.mk("width", 1, 40))
@@ -212,7 +212,8 @@ def c08_bars(e):
     done = [0, 1, 3, 7, 12][int(e.mk("completed", 0, 4))]
     cap = [None, 5, 20][int(e.mk("cap", 0, 2))]
     pulse = bool(e.mkbool("pulse"))
-    pb = cat.render_lines(c, ProgressBar(total=total, completed=done, width=cap, pulse=pulse), w)
+    anim = [0.0, 0.3, 0.75, 0.95][int(e.mk("animation_time", 0, 3))] if pulse else 0.0
+    pb = cat.render_lines(c, ProgressBar(total=total, completed=done, width=cap, pulse=pulse, animation_time=anim), w)
     want = min(cap, w) if cap else w
     if len(pb) > 1 or any(x > w for x in cat.widths(pb)):
         return False
